@@ -450,13 +450,22 @@ func checkC13(c *core.Ctx) {
 	id := 0
 	// (a) schema documents
 	sg := &SGen{R: rng, Nasty: true, Q: &QGen{R: rng, MaxDepth: 2, Unicode: true}}
-	for i := 0; i < ndocs; i++ {
-		src := RenderIgnored(UnparseSchema(sg.Doc(), rng), rng)
+	trickySchemas := handTrickySchemas()
+	for i := 0; i < ndocs+len(trickySchemas); i++ {
+		var src string
+		opts := schemaFmtOpts
+		if i < len(trickySchemas) {
+			src = trickySchemas[i]
+			n := len(schemaFmtOpts)
+			opts = []fmtOpts{schemaFmtOpts[i%n], schemaFmtOpts[(i+5)%n], schemaFmtOpts[(i+7)%n]}
+		} else {
+			src = RenderIgnored(UnparseSchema(sg.Doc(), rng), rng)
+		}
 		d0, err := parser.ParseSchema(&ast.Source{Input: src, Name: "s"})
 		if err != nil {
 			continue
 		}
-		for _, o := range schemaFmtOpts {
+		for _, o := range opts {
 			tree := schemaNorm(ProjectSchemaDoc(d0))
 			if o.NoDesc {
 				tree = dropDescs(tree)
@@ -504,6 +513,7 @@ func checkC13(c *core.Ctx) {
 		sdls = append(sdls, d.SDL())
 	}
 	sdls = append(sdls, handFormatSchemas...)
+	sdls = append(sdls, trickySchemas...)
 	for _, sdl := range sdls {
 		s, err := gqlparser.LoadSchema(&ast.Source{Name: "schema.graphql", Input: sdl})
 		if err != nil {
@@ -553,4 +563,17 @@ func checkC13(c *core.Ctx) {
 		json.Unmarshal(raw, &b)
 		c.Violation(fmt.Sprintf("%s: %s", b.Class, descs[b.ID]), map[string]any{"what": b.Class, "case": full[b.ID]})
 	}
+}
+
+// handTrickySchemas: every tricky string value in every spelling, as the
+// description of a type, of a field, of an argument and of an enum value, and
+// as a default value and a directive argument.
+func handTrickySchemas() []string {
+	var out []string
+	for _, v := range trickyStrings {
+		for _, sp := range stringSpellings(v) {
+			out = append(out, sp+"\ntype Query {\n  "+sp+"\n  f(\n    "+sp+"\n    a: String = "+sp+"): E @deprecated(reason: "+sp+")\n}\nenum E {\n  "+sp+"\n  A\n}")
+		}
+	}
+	return out
 }
